@@ -441,11 +441,8 @@ def action_evaluator_rule(ctx, program, rid):
         calls = [n2 for n2 in body_walk(fu) if isinstance(n2, ast.Call) and call_name(n2) == "AstEval"]
         got = None
         if calls and len(calls[0].args) >= 2:
-            got = norm(calls[0].args[1])
-            if isinstance(calls[0].args[1], ast.Name):
-                for m in body_walk(fu):
-                    if isinstance(m, ast.Assign) and norm(m.targets[0]) == got:
-                        got = norm(m.value)
+            from ..repo import expand_locals
+            got = norm(expand_locals(fu, calls[0].args[1]))  # (sub-expressions that were bound to a local first are put back)
         ctx.check(got == exp, rid, uid2, f"AstEval built on {exp}", msg=f"{uid2}: the action evaluator is built on `{got}` instead of the function's own context `{exp}`",
                   key="action evaluator context", node=calls[0] if calls else fu, rel=uid2.split("::")[0])
 
